@@ -132,13 +132,14 @@ pub fn meta_c05(input: &[u8]) -> Option<Mismatch> {
 // ------------------------------------------------------------------------------------------------------------- C18
 pub fn meta_c18(input: &[u8]) -> Option<Mismatch> {
     guarded(input, "the v1 parser (C18)", || {
-        let cond = match input.iter().position(|&b| b == 13) { Some(p) => input.len() > p + 1, None => input.len() >= 107 };
+        // the first CR is followed by a byte, or 107 bytes have been supplied ("never has to buffer more than 107 bytes")
+        let cond = input.len() >= 107 || matches!(input.iter().position(|&b| b == 13), Some(p) if input.len() > p + 1);
         if !cond { return None; }
         let r = v1::Header::try_from(input);
-        if r.is_incomplete() || !r.is_complete() { return mm(input, "v1 (bytes): a complete result (first CR followed by a byte, or 107 bytes without CR)", format!("{:?} incomplete={}", r, r.is_incomplete())); }
+        if r.is_incomplete() || !r.is_complete() { return mm(input, "v1 (bytes): a complete result (first CR followed by a byte, or 107 bytes supplied)", format!("{:?} incomplete={}", r, r.is_incomplete())); }
         if let Ok(t) = std::str::from_utf8(input) {
             let r = v1::Header::try_from(t);
-            if r.is_incomplete() || !r.is_complete() { return mm(input, "v1 (text): a complete result (first CR followed by a byte, or 107 bytes without CR)", format!("{:?} incomplete={}", r, r.is_incomplete())); }
+            if r.is_incomplete() || !r.is_complete() { return mm(input, "v1 (text): a complete result (first CR followed by a byte, or 107 bytes supplied)", format!("{:?} incomplete={}", r, r.is_incomplete())); }
         }
         None
     })
